@@ -340,6 +340,49 @@ def diagnose(ctx, trace):
     return at, res.violated
 
 
+def float_clock_stage(ctx, tu, rnd):
+    """The model's clock is integral; real clocks are not.  The clauses that are inequalities or equalities between
+    values the watch itself computed must hold for readings that are not exactly representable too: MaxRespected
+    (elapsed(maximum=m) <= m, and = min(elapsed(), m)), NonNegative, LeftoverRight (max(0, duration - elapsed)),
+    ExpiredRight (elapsed > duration), the split lengths being successive differences."""
+    n = 0
+    saved = tu.now
+    box = [0.0]
+    tu.now = lambda: box[0]
+    try:
+        for j in range(3000 if ctx.quick else 60000):
+            start = rnd.choice([0.1, 0.3, 1e6 + 0.25, rnd.uniform(0, 1e7), rnd.uniform(0, 10)])
+            dur = rnd.choice([None, 0.1, 0.7, rnd.uniform(0, 5)])
+            w = tu.StopWatch(dur)
+            box[0] = start
+            w.start()
+            box[0] = start + rnd.choice([0.0, 0.1, 0.2, 0.30000000000000004, rnd.uniform(0, 3), 1e-9])
+            if j % 3 == 0:
+                w.stop()
+                box[0] += rnd.uniform(0, 2)
+            e = w.elapsed()
+            m = rnd.choice([0.0, 0.1, 0.2, 0.05, e, rnd.uniform(0, 3), -1.0])
+            em = w.elapsed(maximum=m)
+            problems = []
+            if e < 0:
+                problems.append('negative elapsed %r' % e)
+            if m >= 0 and (em > m or em != min(e, m)):
+                problems.append('elapsed(maximum=%r) = %r with elapsed() = %r' % (m, em, e))
+            if dur is not None and j % 3:          # leftover / expired are calls on a running watch
+                if w.leftover() != max(0.0, dur - e):
+                    problems.append('leftover %r, duration %r, elapsed %r' % (w.leftover(), dur, e))
+                if w.expired() != (e > dur):
+                    problems.append('expired %r, duration %r, elapsed %r' % (w.expired(), dur, e))
+            n += 1
+            for p in problems:
+                ctx.violation({'kind': 'float-readings', 'what': p.split(' ')[0]}, {'start': start, 'now': box[0], 'duration': dur, 'maximum': m},
+                              'StopWatch with clock readings %r -> %r: %s' % (start, box[0], p))
+    finally:
+        tu.now = saved
+    ctx.cov['evaluations'] += n
+    ctx.stage('float-readings', cases=n)
+
+
 def repo_tests_stage(ctx):
     """code -> spec on the repository's own workloads: its timeutils / fixture / excutils tests run under
     vf.repo_recorder (every public StopWatch call and every clock reading logged from outside) and each
@@ -547,6 +590,7 @@ def run(ctx):
     ctx.stage('trace-validation', traces=n_tr, accepted=total)
     ctx.sample({'code_to_spec_trace_head': {'dur': first['dur'], 'ev': first['ev'][:8]}})
 
+    float_clock_stage(ctx, tu, rnd)
     repo_tests_stage(ctx)
     retry_stage(ctx, tu)
     time_it_stage(ctx, tu)
